@@ -1,12 +1,30 @@
 (* C18 — executable checks used by the correspondence harness (definitions only). *)
 From Coq Require Import Ascii Arith Bool NArith List.
-From Coq Require String.
+From Coq Require Import Strings.Byte.
 Import ListNotations.
 From PV Require Import C18.Types C18.Gen C18.Model C18.Join.
 
 (* string encodings used by the generated cases *)
-Definition s (x : String.string) : str := String.list_ascii_of_string x.
-Definition b (l : list nat) : str := map ascii_of_nat l.
+(* cheap literals: a String Notation over `list byte` (2 term nodes per character) *)
+Inductive bstr := B (l : list Init.Byte.byte).
+Definition unB (x : bstr) : list Init.Byte.byte := match x with B l => l end.
+Declare Scope bstr_scope.
+Delimit Scope bstr_scope with bstr.
+String Notation bstr B unB : bstr_scope.
+Definition s (x : bstr) : str := map ascii_of_byte (unB x).
+Arguments s x%bstr.
+Definition b (l : list N) : str := map ascii_of_N l.
+
+(* checksum of an output line: (length, polynomial hash of the code points) *)
+Definition hash (x : str) : N :=
+  fold_left (fun h c => N.land (h * 131 + N_of_ascii c + 1) 281474976710655) x 7%N.
+Definition sums (ls : list str) : list (N * N) := map (fun x => (N.of_nat (length x), hash x)) ls.
+Fixpoint sums_eqb (a b : list (N * N)) : bool :=
+  match a, b with
+  | [], [] => true
+  | (n, h) :: a', (m, k) :: b' => N.eqb n m && N.eqb h k && sums_eqb a' b'
+  | _, _ => false
+  end.
 
 Definition res_eqb (r : result) (o : option (list str)) : bool :=
   match r, o with
@@ -14,43 +32,60 @@ Definition res_eqb (r : result) (o : option (list str)) : bool :=
   | Err, None => true
   | _, _ => false
   end.
+Definition res_sums_eqb (r : result) (o : option (list (N * N))) : bool :=
+  match r, o with
+  | Ok ls, Some cs => sums_eqb (sums ls) cs
+  | Err, None => true
+  | _, _ => false
+  end.
 
-(* one line: (limit, line, implementation output lines or None = InternalError),
-   (property code computed by the Python mirror of join on the implementation's output,
-    safe computed by the Python mirror, line type index) *)
 Definition ltype_idx (t : ltype) : N :=
   match t with Statement => 0 | Omp => 1 | Acc => 2 | CommentT => 3 | Unknown => 4 end%N.
 
-Definition line_case := ((nat * str * option (list str)) * (nat * bool * nat))%type.
+(* one line: limit, line, checksums of the implementation's output lines (None = InternalError),
+   property code computed by the Python mirror of `join` on the implementation's output
+   (0 holds / 1 fails / 2 input ill-formed / 3 exception), `safe` computed by the Python mirror,
+   line type given by FortLineLength._get_line_type.  Numbers are N (binary) to keep the literals small. *)
+Record line_case := mk { c_limit : N; c_line : str; c_out : option (list (N * N)); c_prop : N;
+                         c_safe : bool; c_type : N }.
 
-Definition model_agrees (c : line_case) : bool :=
-  let '((L, l, o), _) := c in res_eqb (process_line L l) o.
-
-Definition spec_agrees (c : line_case) : bool :=
-  let '((L, l, o), (pp, ps, ty)) := c in
-  Nat.eqb (N.to_nat (match o with Some out => prop_on l out | None => 3%N end)) pp
-  && Bool.eqb (safe l) ps && Nat.eqb (N.to_nat (ltype_idx (line_type l))) ty.
-
-(* the theorems' content, re-evaluated on the implementation's output: safe => property holds,
-   every output line within the limit, output is a fixed point *)
-Definition property_ok (c : line_case) : bool :=
-  let '((L, l, o), _) := c in
-  match o with
-  | None => true
-  | Some out =>
+(* model = implementation *)
+Definition model_agrees_ (r : result) (c : line_case) : bool := res_sums_eqb r (c_out c).
+(* Coq spec (Join.v) vs its Python mirror, on the model's output (equal to the implementation's
+   output whenever model_agrees holds) *)
+Definition spec_agrees_ (r : result) (sf : bool) (pp : N) (c : line_case) : bool :=
+  N.eqb pp (c_prop c) && Bool.eqb sf (c_safe c) && N.eqb (ltype_idx (line_type (c_line c))) (c_type c).
+(* the theorems' content re-evaluated on the model's output: every line within the limit,
+   safe => join preserved, output is a fixed point, breakable => no InternalError *)
+Definition property_ok_ (L : nat) (l : str) (r : result) (sf : bool) (pp : N) : bool :=
+  match r with
+  | Ok out =>
       forallb (fun x => length x <=? L) out
-      && (if safe l then N.eqb (prop_on l out) 0 else true)
+      && (if sf then N.eqb pp 0 else true)
       && res_eqb (process_lines L out) (Some out)
+  | Err => negb (breakable L l)          (* never_fails_partial *)
+  | OutOfFuel => false                   (* process_total *)
   end.
 
-Definition line_check (c : line_case) : bool := model_agrees c && spec_agrees c.
+Definition with_case {A} (c : line_case) (f : nat -> result -> bool -> N -> A) : A :=
+  let L := N.to_nat (c_limit c) in
+  let r := process_line L (c_line c) in
+  let sf := safe (c_line c) in
+  let pp := match r with Ok out => prop_on (c_line c) out | _ => 3%N end in
+  f L r sf pp.
+
+Definition model_agrees (c : line_case) : bool := with_case c (fun L r sf pp => model_agrees_ r c).
+Definition spec_agrees (c : line_case) : bool := with_case c (fun L r sf pp => spec_agrees_ r sf pp c).
+Definition property_ok (c : line_case) : bool := with_case c (fun L r sf pp => property_ok_ L (c_line c) r sf pp).
+Definition line_check (c : line_case) : bool :=
+  with_case c (fun L r sf pp => model_agrees_ r c && spec_agrees_ r sf pp c && property_ok_ L (c_line c) r sf pp).
 
 (* whole texts: (limit, text, implementation output text or None) *)
-Definition text_case := (nat * str * option str)%type.
+Definition text_case := (N * str * option (list (N * N)))%type.
 Definition text_check (c : text_case) : bool :=
   let '(L, t, o) := c in
-  match process_text L t, o with
-  | TOk x, Some y => str_eqb x y
+  match process_text (N.to_nat L) t, o with
+  | TOk x, Some y => sums_eqb (sums (split_nl x)) y
   | TErr, None => true
   | _, _ => false
   end.
